@@ -394,3 +394,184 @@ Proof.
   - intros j jm f s' H. destruct j as [j|], jm, f as [[[fm fr] fn]|]; try destruct fm; try destruct fr;
       run_table_in H; try discriminate H; injection H as H; subst s'; reflexivity.
 Qed.
+
+(* ------------------------------------------------------------------------------------------------ *)
+(* Part 14: after the memory check the restore loop cannot fail at all *)
+
+Lemma forall_any_lt x l : Forall (fun d => x <= d) l -> any_lt x l = false.
+Proof.
+  unfold any_lt. induction 1 as [|d l H _ IH]; [reflexivity|]. cbn [existsb]. rewrite IH.
+  replace (d <? x) with false by lia. reflexivity.
+Qed.
+
+Lemma scalars_set_total n v s z : scalar_size n = Ok z -> z < get_free s -> m_allow_collect s = false ->
+  alookup n (sc_vars s) = None ->
+  exists s', scalars_set n v s = Done s' /\ sc_vars s' = sc_vars s ++ [(n, v)]
+    /\ get_free s - z <= get_free s' /\ m_allow_collect s' = false /\ array_part s' = array_part s.
+Proof.
+  intros Hz Hf Ha Hn.
+  pose proof (scalars_set_acct n v s z Hz Hf Ha) as Hacct.
+  unfold scalars_set, lift in *. rewrite Hz in *. unfold check_free_held in *. rewrite Ha in *.
+  destruct (nmem n (sc_mem s)).
+  - rewrite Hn in *. eexists. split; [reflexivity|]. destruct Hacct as (A1 & A2 & _).
+    repeat split; assumption.
+  - destruct (get_free s <=? z) eqn:E; [lia|]. cbn -[Z.add] in *. rewrite Hn in *. cbn -[Z.add] in *.
+    eexists. split; [reflexivity|]. destruct Hacct as (A1 & A2 & _). repeat split; assumption.
+Qed.
+
+Lemma restore_scalars_total l : forall s z extra, sum_scalar_sizes l = Ok z -> 0 <= extra ->
+  z + extra < get_free s -> m_allow_collect s = false -> NoDup (map fst l) ->
+  (forall n, In n (map fst l) -> alookup n (sc_vars s) = None) ->
+  exists s', restore_scalars l s = Done s' /\ get_free s - z <= get_free s'
+    /\ m_allow_collect s' = false /\ array_part s' = array_part s.
+Proof.
+  induction l as [|[n v] l IH]; intros s z extra Hz He Hf Ha Hnd Hfresh; cbn [sum_scalar_sizes restore_scalars] in *.
+  - injection Hz as <-. exists s. repeat split; [lia | assumption].
+  - destruct (scalar_size n) as [a| | |] eqn:Ea; try discriminate. cbn [bind] in Hz.
+    destruct (sum_scalar_sizes l) as [t| | |] eqn:Et; try discriminate. cbn [bind] in Hz. injection Hz as <-.
+    pose proof (sum_scalar_sizes_nonneg _ _ Et) as Ht.
+    cbn [map fst] in Hnd. inversion Hnd as [|? ? Hk Hnd']; subst.
+    destruct (scalars_set_total n v s a Ea ltac:(lia) Ha (Hfresh n (or_introl eq_refl)))
+      as (s1 & E1 & Hv & Hg & Ha1 & Hp1).
+    rewrite E1.
+    destruct (IH s1 t extra eq_refl He ltac:(lia) Ha1 Hnd') as (s2 & E2 & Hg2 & Ha2 & Hp2).
+    { intros n0 Hin. rewrite Hv, alookup_app, (Hfresh n0 (or_intror Hin)). cbn [alookup].
+      rewrite bytes_eqb_neq; [reflexivity | intros ->; contradiction]. }
+    exists s2. repeat split; [assumption | lia | assumption | congruence].
+Qed.
+
+Lemma arrays_restore_total n d b s bb : ar_base s = Some bb -> d <> [] -> amem n (ar_dims s) = false ->
+  any_lt 0 d = false -> any_lt bb d = false -> array_buffer_size (Some bb) n d = Ok (zlen b) ->
+  array_record_size n d + zlen b < get_free s -> m_allow_collect s = false ->
+  exists s', arrays_restore n d b s = Done s'
+    /\ get_free s' = get_free s - (array_record_size n d + zlen b) /\ m_allow_collect s' = false
+    /\ ar_base s' = Some bb /\ ar_dims s' = ar_dims s ++ [(n, d)].
+Proof.
+  intros Hb Hd Hm H0 Hbb Hsz Hf Ha. unfold arrays_restore, lift. destruct d as [|d0 d]; [contradiction|].
+  rewrite Hm, H0, Hb. cbv beta iota zeta. rewrite ?Hb, Hbb, Hsz. unfold check_free_held. rewrite Ha.
+  replace (get_free s <=? array_record_size n (d0 :: d) + zlen b) with false by lia.
+  rewrite Z.eqb_refl. eexists. split; [reflexivity|].
+  unfold get_free, var_current, var_start in *. cbn -[Z.add]. repeat split; try assumption; lia.
+Qed.
+
+(* what the loop needs to know about one saved array *)
+Definition arr_ready (bb : Z) (x : bytes * (list Z * bytes)) : Prop :=
+  fst (snd x) <> [] /\ Forall (fun v => 0 <= v) (fst (snd x)) /\ Forall (fun v => bb <= v) (fst (snd x))
+  /\ array_buffer_size (Some bb) (fst x) (fst (snd x)) = Ok (zlen (snd (snd x))).
+
+Lemma restore_arrays_total l : forall s bb z, ar_base s = Some bb -> Forall (arr_ready bb) l ->
+  sum_array_sizes (Some bb) l = Ok z -> z < get_free s -> m_allow_collect s = false ->
+  NoDup (map fst l) -> (forall n, In n (map fst l) -> amem n (ar_dims s) = false) ->
+  exists s', restore_arrays l s = Done s'.
+Proof.
+  induction l as [|[n [d b]] l IH]; intros s bb z Hb Hr Hz Hf Ha Hnd Hfresh; cbn [sum_array_sizes restore_arrays] in *.
+  - exists s. reflexivity.
+  - inversion Hr as [|? ? (R1 & R2 & R3 & R4) Hr']; subst. cbn [fst snd] in *.
+    unfold array_size in Hz. rewrite R4 in Hz. cbn [bind] in Hz.
+    destruct (sum_array_sizes (Some bb) l) as [t| | |] eqn:Et; try discriminate. cbn [bind] in Hz. injection Hz as <-.
+    assert (0 <= t) as Ht.
+    { eapply sum_array_sizes_nonneg; [exact Et|]. intros n1 d1 b1 Hin b0 Hb0. injection Hb0 as <-.
+      rewrite Forall_forall in Hr'. destruct (Hr' _ Hin) as (_ & _ & Q & _). exact Q. }
+    cbn [map fst] in Hnd. inversion Hnd as [|? ? Hk Hnd']; subst.
+    destruct (arrays_restore_total n d b s bb Hb R1 (Hfresh n (or_introl eq_refl))
+                (forall_any_lt _ _ R2) (forall_any_lt _ _ R3) R4 ltac:(lia) Ha)
+      as (s1 & E1 & Hg & Ha1 & Hb1 & Hd1).
+    rewrite E1. eapply IH; try eassumption; [lia|].
+    intros n0 Hin. destruct (amem n0 (ar_dims s1)) eqn:Em; [|reflexivity]. exfalso.
+    apply amem_in in Em. rewrite Hd1, map_app in Em. apply in_app_iff in Em as [Em|[<-|[]]].
+    + apply (proj2 (amem_in _ _)) in Em. rewrite (Hfresh n0 (or_intror Hin)) in Em. discriminate.
+    + contradiction.
+Qed.
+
+Lemma buf_moved_len s d b b' : buf_moved s d b b' -> zlen b' = zlen b.
+Proof.
+  induction 1 as [|l lo hi r p' c r' x _ Hp _ _ _ _ IH]; [reflexivity|].
+  destruct p' as [l' a']. unfold pack3 in Hp.
+  destruct ((0 <=? l') && (l' <=? 255) && (0 <=? a') && (a' <=? 65535)); [|discriminate].
+  injection Hp as <-. unfold zlen in *. cbn [app List.length]. lia.
+Qed.
+
+(* CHAIN can fail only through: a bad DELETE range, MERGE into a protected program, a missing file or line,
+   an error while the COMMON strings are copied, or the memory check; once that has passed it completes *)
+Theorem chain_succeeds a s gs ga sv sz : wf s -> bufs_ok s ->
+  c_delete a && c_to_line_missing a = false -> c_merge a && c_protected a = false ->
+  c_file_missing a = false -> (match c_jumpnum a with Some _ => c_jump_missing a | None => false end) = false ->
+  gather (deftype s) 0 (c_decls a) [] = Ok gs -> gather (deftype s) 1 (c_decls a) [] = Ok ga ->
+  same_set gs (c_cs_order a) && nodupb (c_cs_order a) && (same_set ga (c_ca_order a) && nodupb (c_ca_order a)) = true ->
+  let kb := c_all a || (nonempty (c_cs_order a) || nonempty (c_ca_order a)) in
+  let cs' := if c_all a then map fst (sc_vars s) else c_cs_order a in
+  let ca' := if c_all a then map fst (ar_dims s) else c_ca_order a in
+  let s1 := s <| m_allow_collect := false |> in
+  let s4 := (chain_loaded a kb s1) <| run_mode := true |> in
+  migrate_commons cs' ca' s1 = Ok sv -> sizes_of sv s4 = Ok sz ->
+  var_start s4 + sz < st_cur (sv_store sv) ->
+  exists s', cmd_chain a s = Done s'.
+Proof.
+  intros (W1 & W2 & W3 & W4) Hbufs F1 F2 F3 F4 Hg0 Hg1 Hset kb cs' ca' s1 s4 Hm Hsz Hfit.
+  rewrite chain_closed. unfold chain_spec. cbn [h_gather h_setok h_migrate h_sizes h_restore real_handlers].
+  rewrite F1, F2, Hg0, Hg1, Hset. fold kb cs' ca' s1. rewrite Hm, F3, F4. fold s4. rewrite Hsz.
+  replace (st_cur (sv_store sv) <=? var_start s4 + sz) with false by lia.
+  match goal with |- context [restore_all sv ?z] => set (s5 := z) end.
+  apply andb_true_iff in Hset as [E1 E2].
+  apply andb_true_iff in E1 as [_ E1']. apply andb_true_iff in E2 as [_ E2'].
+  assert (NoDup cs') as Hndcs by (unfold cs'; destruct (c_all a); [assumption | apply nodupb_NoDup; assumption]).
+  assert (NoDup ca') as Hndca by (unfold ca'; destruct (c_all a); [assumption | apply nodupb_NoDup; assumption]).
+  destruct (migrate_commons_spec _ _ _ _ Hndcs Hndca Hm) as (arrs & Hpa & _ & HF1 & HF2).
+  rewrite (pick_scalars_same cs' s1 s eq_refl) in HF1.
+  rewrite (pick_arrays_same ca' s1 s eq_refl eq_refl) in Hpa.
+  assert (map fst (sv_scalars sv) = map fst (pick_scalars cs' s)) as Hk1
+    by (eapply Forall2_map_fst; [exact HF1 | intros x y [E _]; exact E]).
+  assert (map fst (sv_arrays sv) = map fst arrs) as Hk2
+    by (eapply Forall2_map_fst; [exact HF2 | intros x y [E _]; exact E]).
+  assert (NoDup (map fst (sv_scalars sv))) as Hnd1.
+  { rewrite Hk1, (proj1 (pick_scalars_spec cs' s)). apply NoDup_filter, Hndcs. }
+  assert (NoDup (map fst (sv_arrays sv))) as Hnd2.
+  { rewrite Hk2, (proj1 (pick_arrays_spec _ _ _ Hpa)). apply NoDup_filter, Hndca. }
+  unfold sizes_of in Hsz.
+  destruct (sum_scalar_sizes (sv_scalars sv)) as [z1| | |] eqn:Ez1; try discriminate. cbn [bind] in Hsz.
+  destruct (sum_array_sizes (ar_base s4) (sv_arrays sv)) as [z2| | |] eqn:Ez2; try discriminate.
+  cbn [bind] in Hsz. injection Hsz as <-.
+  (* what is known about every saved array *)
+  assert (forall y, In y (sv_arrays sv) ->
+            fst (snd y) <> [] /\ In (fst y, fst (snd y)) (ar_dims s)
+            /\ forall bb, ar_base s = Some bb -> array_buffer_size (Some bb) (fst y) (fst (snd y)) = Ok (zlen (snd (snd y))))
+    as Hinfo.
+  { intros [n [d b']] Hin. cbn [fst snd].
+    destruct (Forall2_in_r _ _ _ _ HF2 Hin) as ([n0 [d0 b]] & Hin' & Hf & Hok). cbn [fst snd] in *. subst n0.
+    destruct Hok as [Hdd Hbb]. cbn [fst snd] in *. subst d0.
+    apply (proj2 (pick_arrays_spec _ _ _ Hpa)) in Hin' as (_ & Hd & Hb).
+    destruct (Hbufs _ _ _ Hd Hb) as [Hne Hsize].
+    assert (zlen b' = zlen b) as Hlen.
+    { destruct (is_str_name n); [eapply buf_moved_len; exact Hbb | congruence]. }
+    split; [exact Hne|]. split; [apply alookup_some_in, Hd|]. intros bb Hbase. rewrite Hlen. exact (Hsize bb Hbase). }
+  assert (forall bb, ar_base s4 = Some bb -> ar_base s = Some bb) as Hbase4.
+  { intros bb Hb. change (ar_base s4) with (if kb then ar_base s else None) in Hb. destruct kb; [exact Hb | discriminate]. }
+  assert (forall n d b0, In (n, (d, b0)) (sv_arrays sv) ->
+            forall b, ar_base s4 = Some b -> Forall (fun x => b <= x) d) as Hdims.
+  { intros n d b0 Hin b Hb. destruct (Hinfo _ Hin) as (_ & Hd & _). cbn [fst snd] in Hd.
+    exact (W4 _ _ _ Hd (Hbase4 _ Hb)). }
+  pose proof (sum_array_sizes_nonneg _ _ _ Ez2 Hdims) as Hz2.
+  assert (get_free s5 = st_cur (sv_store sv) - var_start s4) as Hfree
+    by (unfold get_free, var_current, var_start; cbn; lia).
+  destruct (restore_scalars_total (sv_scalars sv) s5 z1 z2 Ez1 Hz2 ltac:(lia) eq_refl Hnd1 (fun n _ => eq_refl))
+    as (s5a & Ers & Hg5 & Ha5 & Hp5).
+  unfold restore_all. rewrite Ers.
+  unfold array_part in Hp5. injection Hp5 as P1 _ _ _ P5 _.
+  assert (exists s6, restore_arrays (sv_arrays sv) s5a = Done s6) as (s6 & Er).
+  { destruct (sv_arrays sv) as [|y l] eqn:Esv; [exists s5a; reflexivity|]. rewrite <- Esv in *.
+    (* the first array has dimensions, so the sizes could only be added up with an OPTION BASE *)
+    assert (exists bb, ar_base s4 = Some bb) as (bb & Hb4).
+    { destruct (ar_base s4) as [bb|] eqn:Eb; [exists bb; reflexivity|]. exfalso.
+      rewrite Esv in Ez2. destruct y as [n [d b]]. cbn [sum_array_sizes] in Ez2.
+      destruct (Hinfo (n, (d, b))) as (Hne & _); [rewrite Esv; left; reflexivity|]. cbn [fst snd] in Hne.
+      unfold array_size, array_buffer_size, flat_length in Ez2. destruct d; [contradiction | discriminate]. }
+    assert (ar_base s5a = Some bb) as Hb5.
+    { rewrite P5. change (ar_base s5) with (if kb then ar_base s else None).
+      change (ar_base s4) with (if kb then ar_base s else None) in Hb4. exact Hb4. }
+    eapply (restore_arrays_total (sv_arrays sv) s5a bb z2 Hb5); [| rewrite <- Hb4; exact Ez2 | lia | exact Ha5 | exact Hnd2 |].
+    - apply Forall_forall. intros [n [d b]] Hin. destruct (Hinfo _ Hin) as (Hne & Hd & Hsize). cbn [fst snd] in *.
+      unfold arr_ready. cbn [fst snd]. repeat split; [exact Hne | exact (W3 _ _ Hd) | exact (W4 _ _ _ Hd (Hbase4 _ Hb4)) |
+        exact (Hsize _ (Hbase4 _ Hb4))].
+    - intros n _. rewrite P1. reflexivity. }
+  rewrite Er. eexists. reflexivity.
+Qed.
